@@ -278,6 +278,16 @@ func (p *c03) build(i int) (*Program, *c03gen) {
 		body = g.body(1+g.r.Intn(4), "")
 		body = append(g.pre, body...)
 	}
+	// a file may begin with what other tools take for data about the page (front matter between lines of dashes or
+	// plus signs, a byte order mark, a shebang line, an XML declaration): to the template engine it is text
+	heads := []string{"---\ntitle: T\nlayout: l\n---\n", "---\r\ntitle: T\r\n---\r\n", "--- \nx: 1\n--- \nrest ", "---\n---\n", "+++\nt = 1\n+++\n", "---\nonly one line of dashes\n", "\xef\xbb\xbf", "#!/usr/bin/env twig\n",
+		"<?xml version=\"1.0\"?>\n", "---\n\n---\n\n---\n", ";;;\na\n;;;\n", "-----\nx\n-----\n"}
+	head := ""
+	if g.r.Intn(8) == 0 {
+		head = heads[g.r.Intn(len(heads))]
+		body = append([]gen.Node{&gen.NText{S: head, ID: "head"}}, body...)
+		g.sig = append(g.sig, "head")
+	}
 	// the last byte of a template may be a lone '{' (nothing can merge with it there)
 	if g.r.Intn(4) == 0 {
 		tails := []string{"{", "end{", " {", "%{", "}{", "é{", "\n{", "{ {"}
@@ -297,7 +307,18 @@ func (p *c03) build(i int) (*Program, *c03gen) {
 	lay := &gen.Template{Name: "c03lay", Body: []gen.Node{&gen.NText{S: "LAY{ ", ID: "l1"}, &gen.NBlock{Name: "eb", Body: []gen.Node{&gen.NText{S: "lay-eb", ID: "l2"}}, ID: "l3"}, &gen.NText{S: " }%", ID: "l4"}}}
 	// a template that is there and empty, included at the very end: it contributes nothing, and it is not missing
 	t.Body = append(t.Body, &gen.NText{S: "|", ID: "c03tail"}, &gen.NInclude{Tpl: &gen.EStr{S: "c03empty"}})
-	return &Program{Templates: map[string]*gen.Template{"main": t, "c03lay": lay, "c03empty": {Name: "c03empty"}}, Main: "main", Ctx: ctx}, g
+	// ... and fragments made of text and comments only (a notice, a footer): their text is text, their comments are
+	// comments, included or not
+	var cls string
+	frag := &gen.Template{Name: "c03frag", Body: []gen.Node{&gen.NText{S: noOpenDelim(c03Chunk(g.r, &cls)) + " ", ID: "f1"}, &gen.NComment{S: []string{" a note ", "", " TODO: x ", "\n two\n lines \n", " 50% off } "}[g.r.Intn(5)]},
+		&gen.NText{S: " " + noOpenDelim(c03Chunk(g.r, &cls)), ID: "f2"}}}
+	if g.r.Intn(3) == 0 {
+		frag.Body = frag.Body[1:2] // nothing but a comment
+	} else if head != "" {
+		frag.Body = append([]gen.Node{&gen.NText{S: head, ID: "f0"}}, frag.Body...)
+	}
+	t.Body = append(t.Body, &gen.NText{S: "|", ID: "c03tail2"}, &gen.NInclude{Tpl: &gen.EStr{S: "c03frag"}}, &gen.NText{S: "|", ID: "c03tail3"})
+	return &Program{Templates: map[string]*gen.Template{"main": t, "c03lay": lay, "c03empty": {Name: "c03empty"}, "c03frag": frag}, Main: "main", Ctx: ctx}, g
 }
 
 func (p *c03) Describe(i int) interface{} {
